@@ -31,7 +31,7 @@ def main():
     ap.add_argument("--also", default="", help="comma separated extra property ids to run on every change")
     ap.add_argument("--seed", default="0")
     args = ap.parse_args()
-    names = args.names or sorted(d for d in os.listdir(SEEDED) if os.path.isdir(os.path.join(SEEDED, d)))
+    names = args.names or sorted(d for d in os.listdir(SEEDED) if os.path.isdir(os.path.join(SEEDED, d)) and not d.startswith("_"))
     results = {}
     os.makedirs(SCRATCH, exist_ok=True)
     for name in names:
